@@ -5,6 +5,28 @@ tree moved under the patch), the demonstration files, and meta.json extended wit
 import json, os, re, shutil, glob, sys
 SRC='/tmp/seeded'; DST='/verif/seeded'; FIN='/tmp/seedfinal'
 KEEP_EXT={'.diff','.scm','.rs','.md','.json','.sh','.txt'}
+NEEDS={
+ "C01-1":"a procedure with a rest parameter calling itself directly in tail position with a number of rest arguments other than one",
+ "C02-1":"a natively compiled function reading one parameter at least three times in one expression, two reads still pending as earlier operands of enclosing calls when the last use (consumed by move) is reached; JIT on",
+ "C03-1":"two threads: the non-owner holds its own clone while the owner thread updates or drops its only owner-counted reference at a last use",
+ "C04-1":"a re-entrant continuation whose frames run different instances of one lambda in consecutive frames, the later instances reachable only through their frames; a full collection while suspended; re-entry that reads the captured boxes",
+ "C05-1":"three threads: two non-owner decrements overlapping between load and compare-and-swap, then an owner merge",
+ "C06-1":"two live instances of one lambda whose earlier-defined instance captures the only reference to a shadowed global's old slot; more than 100 shadowings so that the recycler runs",
+ "C07-1":"one submission with an earlier form that defines / redefines / requires and a later form failing at run time; a later submission using the earlier form's effect",
+ "C08-1":"a continuation captured inside at least two nested dynamic-wind extents and re-entered from where both must be re-entered",
+ "C09-1":"a conditional whose earlier branch evaluates to a lambda expression and whose later branch is the tail call; only stack depth / memory shows it",
+ "C10-1":"a run time bignum plus or minus a fixnum whose exact result lies in the fixnum range; visible through = / equal? / hashing, not through printing",
+ "C11-1":"hash-union where a key occurs in both maps with different values, the left operand is still referenced elsewhere and the right operand is a fresh temporary or a moved last use",
+ "C12-1":"a rectangular complex number whose parts are both written in exponent notation, the imaginary exponent negative",
+ "C13-1":"a template binding its temporary through let* / letrec (not let / lambda / define), a user local with the same spelling, and at least one unrelated scope between that binding and the macro use",
+ "C14-1":"a non-main module with two or more file requires, an earlier one with only-in",
+ "C15-1":"three or more threads: a world-stopping operation exactly while another thread is inside spawn-native-thread",
+ "C16-1":"one thread inside spawn-native-thread while another starts a world stop (global set! / define, narrower: a collection)",
+ "C17-1":"the interrupt arrives inside a with-handler body whose handler carries on (restart / default value)",
+ "C18-1":"equal? on two distinct cyclic values whose cycle goes through mutable vectors only",
+ "C19-1":"a host root (SteelVal::as_rooted) that survives at least one full collection before it is released",
+ "C20-1":"two host references on loan at the same time (nested with_mut_reference, or a script under a loan that triggers the expansion kernel) when the inner loan ends",
+}
 os.makedirs(DST,exist_ok=True)
 for d in sorted(os.listdir(SRC)):
     m=re.fullmatch(r'(C\d\d)-(\d)',d)
@@ -20,6 +42,12 @@ for d in sorted(os.listdir(SRC)):
         try: meta=json.load(open(mp))
         except Exception: meta={'note':'meta.json of the sub-agent was not valid JSON'}
     meta.setdefault('property',m.group(1))
+    meta['breaks_property']=m.group(1)
+    if d in NEEDS: meta['needs_to_manifest']=NEEDS[d]
+    cf=os.path.join(SRC,d,'confirm.txt')
+    if os.path.exists(cf):
+        t=open(cf).read()
+        meta['confirmed_here']={'command':'tools/confirm_seed_wt.sh %s %s  (scratch worktree at /repo HEAD: demonstration without the change, with it, then the repository suite with it)'%(m.group(1),m.group(2)),'suite_with_change':(re.findall(r'Summary.*',t) or ['see notes'])[-1].strip(),'failures_beyond_baseline':(re.findall(r'failures beyond the 6 baseline failures: (.*)',t) or ['?'])[-1]}
     runs=[]
     for r in sorted(glob.glob(os.path.join(FIN,d+'.*.txt'))):
         if os.path.basename(r).endswith('.lab.txt'): continue
